@@ -57,7 +57,19 @@ class _Gen:
             ("bin", 2), ("cmp", 2 + (2 if boolish else 0)),
             ("boolop", bw),
             ("not", 0.7 * o["unary"]),
+            ("neg", 0.3 * o["unary"]), ("member", 0.4 * o["extras"]), ("isnone", 0.3 * o["extras"]),
+            ("ifexp", 0.4 * o["extras"]), ("kwcall", 0.4 * o["extras"]),
         ])
+        if kind == "neg":
+            return "(-%s)" % self.atom()
+        if kind == "member":
+            return "(%s %s (%d, %d))" % (self.expr(depth + 1), r.choice(["in", "not in"]), r.randint(0, 1), r.randint(2, 3))
+        if kind == "isnone":
+            return "(%s %s None)" % (self.ext(3), r.choice(["is", "is not"]))
+        if kind == "ifexp":
+            return "(%s if %s else %s)" % (self.expr(depth + 1), self.ext(3), self.expr(depth + 1))
+        if kind == "kwcall":
+            return "E(%d, k=%s)" % (self.sid(), self.expr(depth + 1))
         if kind == "atom":
             return self.atom()
         if kind == "ext":
@@ -184,7 +196,7 @@ class _Gen:
         elif kind == "if":
             self.emit(ind, "if %s:" % self.test())
             self.block(ind + 1, depth + 1)
-            nel = r.weighted([(0, 3), (1, 4), (2, 1)])
+            nel = r.weighted([(0, 3), (1, 4), (2, 1), (3, 0.4), (4, 0.3)])
             for e in range(nel):
                 if e < nel - 1 or r.chance(0.3):
                     self.emit(ind, "elif %s:" % self.test())
@@ -260,6 +272,7 @@ def _draw_opts(rng):
         "clean": False,
         "jumpy": rng.choice([1, 1, 2.5, 4]),
         "stores": rng.choice([0, 1, 1, 2]),
+        "extras": rng.choice([0, 0, 1, 2]),
         "for_tuple": rng.chance(0.3),
         "family": "multiexit" if rng.chance(0.15) else "general",
     }
